@@ -199,3 +199,27 @@ B('c06-monotonic-reverse-dropped', 'C06', AXES, "np.union1d(self.values, other.v
 N('c06-n-rename', 'C06', AXES, "not_in_self", "extra", 'rename', all=True)
 N('c06-n-loop-var', 'C06', ALIGN, "    for ax in axes:\n        for i, o in enumerate(arrays):\n            if ax.name not in o.dims: \n                continue\n            if np.all(o.axes[ax.name] == ax):\n                continue\n            arrays[i] = o.reindex_axis(ax)", "    for common in axes:\n        for k, arr in enumerate(arrays):\n            if common.name not in arr.dims: \n                continue\n            if np.all(arr.axes[common.name] == common):\n                continue\n            arrays[k] = arr.reindex_axis(common)", 'rename loop variables')
 N('c06-n-list-call', 'C06', ALIGN, "    arrays = [a for a in arrays] # convert to list", "    arrays = list(arrays) # convert to list", 'list() instead of comprehension')
+
+# ------------------------------------------------------------------------------- C07
+B('c07-position-dropped', 'C07', ALIGN, "    newobj = self.take_axis(indices, axis, indexing='position')", "    newobj = self.take_axis(indices, axis)", 'positions looked up as labels')
+B('c07-cast-dropped', 'C07', ALIGN, "newobj.put(mask, fill_value, axis=axis, inplace=True, indexing=\"position\", cast=True)", "newobj.put(mask, fill_value, axis=axis, inplace=True, indexing=\"position\")", 'int data cannot hold NaN')
+B('c07-put-axis-dropped', 'C07', ALIGN, "newobj.put(mask, fill_value, axis=axis, inplace=True, indexing=\"position\", cast=True)", "newobj.put(mask, fill_value, inplace=True, indexing=\"position\", cast=True)", 'fill along the first axis')
+B('c07-put-label-mode', 'C07', ALIGN, "newobj.put(mask, fill_value, axis=axis, inplace=True, indexing=\"position\", cast=True)", "newobj.put(mask, fill_value, axis=axis, inplace=True, cast=True)", '')
+B('c07-mask-other-indices', 'C07', ALIGN, "    mask = ax.values.take(indices) != values", "    mask = ax.values != values", 'mask not computed from the located positions')
+B('c07-relabel-unmasked', 'C07', ALIGN, "        newobj.axes[axis][mask] = values[mask]", "        newobj.axes[axis][mask] = values[:mask.sum()]", 'wrong labels written')
+B('c07-relabel-dropped', 'C07', ALIGN, "        newobj.axes[axis][mask] = values[mask]\n", "", 'axis keeps neighbouring labels')
+B('c07-relabel-raw', ['C07', 'C06'], ALIGN, "        newobj.axes[axis][mask] = values[mask]", "        newobj.axes[axis].values[mask] = values[mask]", 'seeded C07-2 / C06-2')
+B('c07-fill-when-method', 'C07', ALIGN, "        if method is None:\n            newobj.put(", "        if True:\n            newobj.put(", 'fill although method given')
+B('c07-raise-after-fill', 'C07', ALIGN, "        if raise_error:\n            raise IndexError(\"Some values where not found in the axis: {}\".format(values[mask]))\n        if method is None:", "        if raise_error and method is not None:\n            raise IndexError(\"Some values where not found in the axis: {}\".format(values[mask]))\n        if method is None:", 'raise_error ignored when method is None')
+B('c07-side-default', 'C07', ALIGN, "side=method or 'left')", "side=method or 'right')", '')
+B('c07-locate-wrong-axis', 'C07', ALIGN, "    ax = self.axes[axis]\n    # indices = ax.loc(values, mode='clip', side=method)", "    ax = self.axes[0]\n    # indices = ax.loc(values, mode='clip', side=method)", 'labels searched on the first axis')
+B('c07-axis-override-dropped', 'C07', ALIGN, "        values = newaxis.values\n        axis = newaxis.name\n    elif np.isscalar(values)", "        values = newaxis.values\n    elif np.isscalar(values)", 'Axis argument does not select its dimension')
+B('c07-fill-default', 'C07', ALIGN, "def reindex_axis(self, values, axis=0, fill_value=np.nan, raise_error=False, method=None):", "def reindex_axis(self, values, axis=0, fill_value=0, raise_error=False, method=None):", '')
+B('c07-take-axis-pos', 'C07', CLS, "        values = self.values.take(indices, axis=pos, mode=mode, out=out)", "        values = self.values.take(indices, axis=0, mode=mode, out=out)", 'take along axis 0')
+B('c07-take-axis-newax', 'C07', CLS, "        newax = ax.take(indices, mode=mode)\n        newaxes = [axx.copy() if axx.name!=ax.name else newax for axx in axes]", "        newax = ax.take(indices, mode=mode)\n        newaxes = [axx.copy() if axx.name!=ax.name else ax for axx in axes]", 'axis not subsampled')
+B('c07-reindex-like-self', 'C07', ALIGN, "            obj = obj.reindex_axis(newaxis, axis=ax.name, **kwargs)", "            obj = self.reindex_axis(newaxis, axis=ax.name, **kwargs)", 'seeded C07-1')
+B('c07-reindex-like-kwargs', 'C07', ALIGN, "            obj = obj.reindex_axis(newaxis, axis=ax.name, **kwargs)", "            obj = obj.reindex_axis(newaxis, axis=ax.name)", 'fill_value/method dropped')
+B('c07-reindex-like-labels', 'C07', ALIGN, "            newaxis = axes[ax.name].values\n            obj = obj.reindex_axis(newaxis, axis=ax.name, **kwargs)", "            newaxis = axes[0].values\n            obj = obj.reindex_axis(newaxis, axis=ax.name, **kwargs)", 'labels of another dimension')
+N('c07-n-rename', 'C07', ALIGN, "newobj", "result", 'rename', all=True)
+N('c07-n-temp-labels', 'C07', ALIGN, "    indices = locate_many(ax.values, values, side=method or 'left')", "    labels = ax.values\n    indices = locate_many(labels, values, side=method or 'left')", 'temporary')
+N('c07-n-kw-order', 'C07', ALIGN, "newobj.put(mask, fill_value, axis=axis, inplace=True, indexing=\"position\", cast=True)", "newobj.put(mask, fill_value, cast=True, indexing=\"position\", inplace=True, axis=axis)", 'keyword order')
